@@ -535,7 +535,7 @@ def run(tier, seed):
             res.model_drift("HOADmodel no longer draws through random.random / random.sample as (variate [, sample])*: "
                             "the relation HOADDriven cannot be evaluated, black-box clauses only")
             break
-    res.cov(cases_validated=len(cases), validator_states=states,
+    res.cov(cases_validated=len(cases), traces_validated_against_impl=len(cases), validator_states=states,
             cmv_runs=len(cmv), cmv_runs_with_chain_level_clauses=sum(1 for c in cmv if c["deep"]),
             cmv_runs_single_epoch=sum(1 for c in cmv if c["args"]["n_steps"] <= 1),
             cmv_runs_n_clash_0=sum(1 for c in cmv if c["args"]["n_clash"] == 0),
